@@ -264,6 +264,58 @@ theorem sorted_reject_iff (len : V → Nat) (ps : List (Pair V)) :
           (by omega) (by simp [ha]) (by simp [hb])
         unfold key at this; omega
 
+/-- **Which error** (the audit's "error variant not stated").  With `es` the list the
+constructor sums over (the stable sort for `new` / `new_from_slice`, the caller's list for
+`new_from_sorted`): `new_from_sorted` first reports `NonMonotonicTags(i, tag_i, tag_{i+1})`
+at the FIRST decrease; otherwise every constructor reports `TooManyElements(N)` if the
+count exceeds `i32::MAX`; else `ValueTooLarge(rank, len)` for the FIRST value whose length
+does (rank in `es`, as the `u32` the code casts it to); else `TotalTooLarge(N, total)` with
+the total saturated at `usize::MAX`. -/
+theorem reject_error_kind (len : V → Nat) (ps : List (Pair V)) (e : EncErr) :
+    let kinds := fun (es : List (Pair V)) =>
+      (es.length > i32Max ∧ e = .tooManyElements es.length) ∨
+      (es.length ≤ i32Max ∧ ∃ r p, es[r]? = some p ∧ len p.2 > i32Max ∧
+        (∀ j q, j < r → es[j]? = some q → len q.2 ≤ i32Max) ∧
+        e = .valueTooLarge (r % 4294967296) (len p.2)) ∨
+      (es.length ≤ i32Max ∧ (∀ p ∈ es, len p.2 ≤ i32Max) ∧
+        4 + 4 * (es.length - 1) + 4 * es.length + (es.map (fun p => len p.2)).sum > i32Max ∧
+        e = .totalTooLarge (es.length % 4294967296)
+          (min (4 + 4 * (es.length - 1) + 4 * es.length + (es.map (fun p => len p.2)).sum) usizeMax))
+    (Wrapper.new len ps = .error e → kinds (sortByTag ps)) ∧
+    (Wrapper.newFromSlice len ps = .error e → kinds (sortByTag ps)) ∧
+    (Wrapper.newFromSorted len ps = .error e →
+      (∃ i a b, ps[i]? = some a ∧ ps[i + 1]? = some b ∧ a.1.toNat > b.1.toNat ∧
+        List.Pairwise (· ≤ ·) ((ps.take (i + 1)).map (fun p => p.1.toNat)) ∧
+        e = .nonMonotonicTags i a.1.toNat b.1.toNat) ∨
+      (List.Pairwise (· ≤ ·) (ps.map (fun p => p.1.toNat)) ∧ kinds ps)) := by
+  intro kinds
+  have hk : ∀ es, mkWrapper len es = .error e → kinds es := by
+    intro es h
+    have : computeLen len es = .error e := by
+      unfold mkWrapper at h
+      cases hc : computeLen len es with
+      | error e' => rw [hc] at h; simpa using h
+      | ok n => rw [hc] at h; cases h
+    exact computeLen_error_kind len es e this
+  refine ⟨hk _, hk _, ?_⟩
+  intro h
+  unfold Wrapper.newFromSorted at h
+  cases hfd : firstDecrease (ps.map key) 0 with
+  | none =>
+    rw [hfd] at h
+    exact Or.inr ⟨(firstDecrease_none_iff _ 0).mp hfd, hk ps h⟩
+  | some x =>
+    obtain ⟨i, a, b⟩ := x
+    rw [hfd] at h
+    simp only [Except.error.injEq] at h
+    obtain ⟨_, h2, h3, h4, h5⟩ := firstDecrease_some _ 0 i a b hfd
+    simp only [Nat.sub_zero, List.getElem?_map, Option.map_eq_some_iff] at h2 h3
+    obtain ⟨pa, hpa, rfl⟩ := h2
+    obtain ⟨pb, hpb, rfl⟩ := h3
+    left
+    refine ⟨i, pa, pb, hpa, hpb, h4, ?_, h.symm⟩
+    rw [List.map_take]; exact h5
+
 /-! ### The sink-call level: borrowed / owned values, any `ZeroCopySink` -/
 
 open Woodpile.Hcobs (Method)
